@@ -654,8 +654,8 @@ void check_extents(Case const& k, Shape const& sh)
         bool const eq = a1 == a2 && a2 == b1 && b3 == b4 && !(a1 != b4);
         CHECK(sub, k, eq, "operator== between equal extents objects is false");
     }
-    // products
-    {
+    // products (public in tetl; [mdspan.extents.expo] fwd-prod-of-extents / rev-prod-of-extents) - checked while accessible
+    if constexpr (requires { a2.fwd_prod_of_extents(std::size_t{0}); a2.rev_prod_of_extents(std::size_t{0}); }) {
         ll f[5] = {0, 0, 0, 0, 0};
         ll b[4] = {0, 0, 0, 0};
         for (std::size_t r = 0; r <= R; ++r) { f[r] = static_cast<ll>(a2.fwd_prod_of_extents(r)); }
